@@ -82,6 +82,71 @@ static void run_op(const std::vector<std::string> &w, const std::string &, out &
         o.result = "ok";
         return;
     }
+    if (op == "check")
+    {
+        // catalogue check values of "123456789" (reveng CRC catalogue) and two STM32 CRC-unit values
+        static const uint8_t m9[9] = {'1', '2', '3', '4', '5', '6', '7', '8', '9'};
+        exact_buf b(bytes(m9, m9 + 9));
+        uint8_t c8 = igris_crc8(b.p, 9, 0), c8t = igris_crc8_table(b.p, 9, 0), c7 = igris_mmc_crc7(b.p, 9);
+        uint8_t sm = strm(0xff, b.p, 9);
+        uint16_t x = igris_crc16(b.p, 9, 0), f = igris_crc16(b.p, 9, 0xffff), a = igris_crc16(b.p, 9, 0x1d0f);
+        static const uint8_t z4[4] = {0, 0, 0, 0};
+        exact_buf bz(bytes(z4, z4 + 4));
+        uint32_t w0 = igris_crc32(bz.p, 4, 0xffffffffu);
+        // CRC-32/MPEG-2 of "12345678" fed as byte-swapped words
+        static const uint8_t sw[8] = {'4', '3', '2', '1', '8', '7', '6', '5'};
+        exact_buf bs(bytes(sw, sw + 8));
+        uint32_t mp = igris_crc32(bs.p, 8, 0xffffffffu);
+        bytes m8(m9, m9 + 8);
+        o.result = hexn(c8, 2) + " " + hexn(c8t, 2) + " " + hexn(c7, 2) + " " + hexn(sm, 2) + " " + hexn(x, 4) + " " + hexn(f, 4) + " " + hexn(a, 4) + " " + hexn(w0, 8) + " " + hexn(mp, 8);
+        if (c8 != 0xA1 || c8t != 0xA1) o.fail("CRC-8/MAXIM-DOW check value is 0xA1");
+        if (c7 != 0x75) o.fail("CRC-7/MMC check value is 0x75");
+        if (sm != 0xF7) o.fail("CRC-8/NRSC-5 (poly 0x31, init 0xFF) check value is 0xF7");
+        if (x != 0x31C3) o.fail("CRC-16/XMODEM check value is 0x31C3");
+        if (f != 0x29B1) o.fail("CRC-16/IBM-3740 (CCITT-FALSE) check value is 0x29B1");
+        if (a != 0xE5CC) o.fail("CRC-16/SPI-FUJITSU (AUG-CCITT) check value is 0xE5CC");
+        if (w0 != 0xC704DD7Bu) o.fail("STM32 CRC unit: one zero word after reset gives 0xC704DD7B");
+        if (mp != ref_msb(32, 0x04C11DB7, 0xffffffffu, m8)) o.fail("crc32 of byte-swapped words != CRC-32/MPEG-2 of the message");
+        if (ref_msb(32, 0x04C11DB7, 0xffffffffu, bytes(m9, m9 + 9)) != 0x0376E6E7u) o.fail("harness reference: CRC-32/MPEG-2 check value is 0x0376E6E7");
+        o.tag("check");
+        return;
+    }
+    if (op == "len")
+    {
+        // len <routine> <len> <seed> <mapped bytes>: the length argument differs from the mapped size
+        const std::string &rt = w[1];
+        size_t n = strtoul(w[2].c_str(), 0, 10);
+        uint32_t seed = (uint32_t)strtoul(w[3].c_str(), 0, 16);
+        bytes m = unhex(w[4]);
+        exact_buf b(m);
+        bytes pre(m.begin(), m.begin() + (n < m.size() ? n : m.size()));
+        uint32_t r = 0, ref = 0;
+        int digits = 2;
+        auto call = [&](const uint8_t *p) -> uint32_t {
+            if (rt == "crc8") return igris_crc8(p, (uint8_t)n, (uint8_t)seed);
+            if (rt == "crc8t") return igris_crc8_table(p, (uint8_t)n, (uint8_t)seed);
+            if (rt == "crc16") return igris_crc16(p, (uint16_t)n, (uint16_t)seed);
+            if (rt == "mmc7") return igris_mmc_crc7(p, (uint8_t)n);
+            return igris_crc32(p, (uint32_t)n, seed);
+        };
+        r = call(b.p);
+        if (rt == "crc8" || rt == "crc8t") ref = ref_lsb(0x8C, seed, pre);
+        else if (rt == "crc16") { ref = ref_msb(16, 0x1021, seed, pre); digits = 4; }
+        else if (rt == "mmc7") ref = ref_msb(7, 0x09, 0, pre);
+        else { ref = ref_msb(32, 0x04C11DB7, seed, crc32_bitorder(pre)); digits = 8; }
+        o.result = hexn(r, digits);
+        if (r != ref) o.fail(rt + " with len " + std::to_string(n) + " != reference over the first len bytes");
+        // the bytes behind [0,len) are not an input
+        bytes m2 = m;
+        for (size_t k = n; k < m2.size(); k++) m2[k] ^= 0xff;
+        exact_buf b2(m2);
+        if (call(b2.p) != r) o.fail(rt + ": the result depends on bytes behind data+len");
+        o.tag(("len-" + rt).c_str());
+        if (n == 0) o.tag("len0");
+        if (n < m.size()) o.tag("prefix");
+        if ((n == 255 && rt != "crc16" && rt != "crc32") || (n == 65535 && rt == "crc16")) o.tag("lenmax");
+        return;
+    }
     if (op == "mmc7")
     {
         bytes m = unhex(w[1]);
@@ -189,6 +254,31 @@ static void gen(rng &r, const std::string &tier)
 {
     bool th = tier == "thorough";
     puts("tbl8");
+    puts("check");
+    // explicit length argument: 0 (nothing mapped / something mapped), a prefix of the mapped bytes, the maximum of the type
+    for (const char *rt : {"crc8", "crc8t", "crc16", "mmc7", "crc32"})
+    {
+        printf("len %s 0 %x -\n", rt, (unsigned)r.below(256));
+        for (int i = 0; i < (th ? 400 : 60); i++)
+        {
+            size_t mapped = (size_t)r.range(0, i % 4 == 0 ? 300 : 24);
+            size_t n = (size_t)r.range(0, (int64_t)mapped);
+            if (i % 5 == 0) n = 0;
+            if (i % 7 == 0) n = mapped;
+            bool narrow = std::string(rt) != "crc16" && std::string(rt) != "crc32";
+            if (narrow && n > 255) n = 255;
+            printf("len %s %zu %x %s\n", rt, n, (unsigned)(std::string(rt) == "crc32" ? r.next() & 0xffffffffu : std::string(rt) == "crc16" ? r.below(65536) : r.below(256)), rnd_hex(r, mapped).c_str());
+        }
+        bool narrow = std::string(rt) != "crc16" && std::string(rt) != "crc32";
+        if (narrow)
+        {
+            printf("len %s 255 %x %s\n", rt, (unsigned)r.below(256), rnd_hex(r, 255).c_str());
+            printf("len %s 255 %x %s\n", rt, (unsigned)r.below(256), rnd_hex(r, 256).c_str());
+            printf("len %s 255 %x %s\n", rt, (unsigned)r.below(256), rnd_hex(r, 300).c_str());
+        }
+    }
+    printf("len crc16 65535 %x %s\n", (unsigned)r.below(65536), rnd_hex(r, 65535).c_str());
+    printf("len crc16 65535 %x %s\n", (unsigned)r.below(65536), rnd_hex(r, 65540).c_str());
     // (1) all (seed, byte) pairs for the 8-bit routines
     for (unsigned s = 0; s < 256; s++)
         for (unsigned b = 0; b < 256; b++)
